@@ -36,6 +36,8 @@ def gen_metrics(rnd, n_einsums=None, force=None):
         return gen_alias_arch(rnd)
     if force == "occ-conv":
         return gen_occ_conv_metrics(rnd)
+    if force == "lf-take":
+        return gen_lf_take(rnd)
     if force is None:
         if n_einsums in (None, 1) and rnd.random() < 0.12:
             return gen_merger(rnd)
@@ -874,3 +876,46 @@ def gen_occ_conv_metrics(rnd):
                 tags=["metrics", "m-occupancy-split-projected-rank", "m-einsums1", "m-configs1"])
     spec._extents = ext
     return spec
+
+
+def gen_lf_take(rnd):
+    """take() in metrics mode with ONE leader-follower intersector bound to two ranks of the
+    Einsum, each with its own leader (the first holder of the rank in written order, so KF-6
+    does not apply).  take() does not commute, so operands bound to the wrong payloads show:
+        Z[m] = take(A[k], B[m, k], C[m], 0);  LF: rank M leader B, rank K leader A"""
+    r1, r2 = rnd.sample(["M", "K", "N", "J"], 2)
+    ops = [("A", [r2]), ("B", [r1, r2]), ("C", [r1])]
+    if rnd.random() < 0.3:
+        ops = [("A", [r2]), ("B", [r1, r2])]
+    if rnd.random() < 0.3:
+        ops[1] = ("B", [r2, r1])
+    rnd.shuffle(ops)
+    decl = {n: list(rs) for n, rs in ops}
+    out = [r1] if rnd.random() < 0.7 else [r1, r2]
+    decl["Z"] = out
+    sel = rnd.randrange(len(ops))
+    e = Einsum(_acc("Z", out), [Term("take", [_acc(n, rs) for n, rs in ops], sel)])
+    lo = [r1, r2] if rnd.random() < 0.6 else [r2, r1]
+    ro = {n: [r for r in lo if r in rs] for n, rs in decl.items()}
+
+    def leader(r):
+        hs = [n for n, rs in ops if r in rs]
+        return hs[0] if len(hs) >= 2 else None
+    binds = [(r, leader(r)) for r in (r1, r2) if leader(r)]
+    rnd.shuffle(binds)
+    arch = ["architecture:", "  accel:", "  - name: System", "    attributes:",
+            "      clock_frequency: 1000", "    local:", "    - name: LF", "      class: Intersector",
+            "      attributes:", "        type: leader-follower"]
+    b = ["bindings:", "  Z:", "  - config: accel", "    prefix: tmp/Z", "  - component: LF",
+         "    bindings:"]
+    for r, l in binds:
+        b += ["    - rank: %s" % r, "      leader: %s" % l]
+    fmt = ["format:", "  Z:", "    default:", "      rank-order: [%s]" % ", ".join(ro["Z"])]
+    for r in ro["Z"]:
+        fmt += ["      %s:" % r, "        format: C", "        pbits: 32"]
+    tags = ["metrics", "m-take", "m-leader-follower", "m-einsums1", "m-configs1"]
+    if len(binds) == 2 and binds[0][1] != binds[1][1]:
+        tags.append("m-lf-two-ranks-two-leaders")
+    return Spec(decl, [e], rank_order=ro, loop_order={"Z": lo},
+                spacetime={"Z": {"space": [], "time": list(lo)}},
+                extra="\n".join(arch + b + fmt) + "\n", tags=tags)
